@@ -169,7 +169,8 @@ impl SocksListener {
                 ctx.on_error(err_msg("not supported")).await;
                 debug!("not supported cmd: {:?}", request.cmd);
             }
-            SOCKS_CMD_UDP_ASSOCIATE => {
+            // UDP ASSOCIATE only exists in SOCKS5; a SOCKS4 request with this code is an unknown command
+            SOCKS_CMD_UDP_ASSOCIATE if request.version == 5 => {
                 if !self.allow_udp {
                     ctx.on_error(err_msg("not supported")).await;
                     debug!("udp not allowed");
